@@ -179,7 +179,7 @@ fn gen_scenario(check: &str, seed: u64, run: u64) -> Scenario {
         threads.push(vec![Instr::Gc; k]);
     }
     let mut exclusive = vec![];
-    if pf.exclusive && rng.chance(1, 2) && kind != Kind::Zbdd && capacity == 1 << 16 {
+    if pf.exclusive && rng.chance(1, 2) && kind != Kind::Zbdd && capacity == 1 << 16 && !alloc_fail {
         let k = rng.range(1, 3);
         for _ in 0..k {
             let mut vs: Vec<u32> = (0..vars).collect();
@@ -251,6 +251,8 @@ fn run_scenario(sc: &Scenario, replay: Option<Trace>) -> ScenarioResult {
         let mut main = make_machine_send(&sc.config);
         sim().settle();
         main.audit(&model, &mut ctx);
+        // set-up (adding variables has no error channel) is over: faults may fire now
+        sim().enable_buggify(true);
         for (i, ins) in sc.shared.iter().enumerate() {
             if ctx.failed() {
                 break;
@@ -336,6 +338,7 @@ fn run_scenario(sc: &Scenario, replay: Option<Trace>) -> ScenarioResult {
                 model.order = em.order;
             }
             // quiescent point: callers joined, workers idle, collector waiting
+            sim().enable_buggify(false);
             sim().settle();
             ctx.step = 100_000;
             if !ctx.failed() {
@@ -500,7 +503,10 @@ fn same_failure(want: &Violation, check: &str, vs: &[Violation]) -> Option<Viola
 fn replay(args: &[String]) -> i32 {
     let rp = load(&args[0]);
     let check = arg(args, "--check").unwrap_or(rp.check.clone());
-    let r = run_scenario(&rp.scenario, Some(rp.trace.clone()));
+    // a process that died could not hand over its trace: the seeded schedule is
+    // deterministic, so the original strategy reproduces it
+    let tr = if rp.trace.switches.is_empty() && rp.trace.buggify_fired.is_empty() { None } else { Some(rp.trace.clone()) };
+    let r = run_scenario(&rp.scenario, tr);
     for v in &r.violations {
         println!("violation props={} class={} step={} {}", v.props.join("+"), v.class, v.step as i64, v.detail);
     }
